@@ -1,4 +1,5 @@
 import RedisEmu.Bits
+import RedisEmu.Arity
 /-
   Connection sessions, the database table, argument parsing per command, the
   MULTI queue and the dispatcher (`cmdDispatcher.prepare/dispatchHandler`,
@@ -741,6 +742,10 @@ def execQueue (c : Ctx) (conn : Nat) : List Queued → List Value → State → 
     match q.argv with
     | [] => execQueue c conn r impls s vs hs ps
     | name :: args =>
+      if unmodelled.any (sb · == lowerB name) then
+        -- queued, executed by the implementation, not judged by the model
+        execQueue c conn r impls.tail s (.nil :: vs) (.custom "any" :: hs) ps
+      else
       match parseCmd name args with
       | none => execQueue c conn r impls.tail s (errArity name :: vs) (.exact :: hs) ps
       | some cmd =>
@@ -801,6 +806,19 @@ def dispatchParsed (c : Ctx) (s : State) (conn : Nat) (argv : List Bytes) (cmd :
       let o := runCmd c s conn ses.dbRef false other
       { o with reply := downIf (o.st.session conn).resp c o.reply }
 
+/-- does the number of words fit the command's arity (table generated from the repository's command
+    descriptions)? `argc` counts the command name -/
+def arityOk (name : Bytes) (argc : Nat) : Bool :=
+  match arityTable.find? (fun p => sb p.1 == name) with
+  | some (_, a) => if a > 0 then argc == a.toNat else decide (argc ≥ a.natAbs)
+  | none => true
+
+/-- a container command (CLIENT, COMMAND, …) with a subcommand that does not exist -/
+def unknownSubcommand (name : Bytes) (args : List Bytes) : Bool :=
+  match subcommandTable.find? (fun p => sb p.1 == name), args with
+  | some (_, subs), sub :: _ => !subs.any (fun x => sb x == lowerB sub)
+  | _, _ => false
+
 /-- `cmdDispatcher.dispatch`: one command from connection `conn` -/
 def dispatch (c : Ctx) (s : State) (conn : Nat) (argv : List Bytes) : Out :=
   match argv with
@@ -812,16 +830,29 @@ def dispatch (c : Ctx) (s : State) (conn : Nat) (argv : List Bytes) : Out :=
       let ses' := if ses.queue.isSome && !c.q.queueErrorNoAbort then { ses with queueErr := true } else ses
       { st := s.setSession conn ses', reply := .error (sb "ERR Unknown command") }
     else if unmodelled.any (sb · == n) then
-      { st := s, reply := .nil, judged := false }
+      match ses.queue with
+      | none => { st := s, reply := .nil, judged := false }
+      | some q =>
+        -- inside MULTI the model has to know whether the command was queued
+        let definite := !arityOk n (args.length + 1) || unknownSubcommand n args
+        let queued := match c.impl with | some (.simple w) => w == sb "QUEUED" | _ => false
+        if queued && !definite then
+          { st := s.setSession conn { ses with queue := some (q ++ [{ argv := argv, dbRef := ses.dbRef }]) },
+            reply := .simple (sb "QUEUED") }
+        else
+          { st := s.setSession conn (if !c.q.queueErrorNoAbort then { ses with queueErr := true } else ses),
+            reply := errArity name }
     else
     match parseCmd name args with
     | none =>
       -- The arguments are wrong. Inside MULTI Redis refuses some of these while queueing (arity:
       -- EXEC will abort) and queues others (option syntax: the error is the command's reply in
       -- EXEC). The model does not tell the two kinds apart and follows what the implementation did.
+      -- Wrong arity and unknown subcommands are always refused while queueing.
+      let definite := !arityOk n (args.length + 1) || unknownSubcommand n args
       match ses.queue, c.impl with
       | some q, some (.simple w) =>
-        if w == sb "QUEUED" then
+        if w == sb "QUEUED" && !definite then
           { st := s.setSession conn { ses with queue := some (q ++ [{ argv := argv, dbRef := ses.dbRef }]) },
             reply := .simple (sb "QUEUED") }
         else
